@@ -128,10 +128,16 @@ func TestC14(t *testing.T) {
 				add("garbage-data/"+lc, "linkmap", g, true, ls, names, "undecodable Data")
 				// structurally malformed protobuf that also the reference decoder refuses: cut short
 				// (incl. a packed blocksizes run ending inside a varint) or with an over-long varint
-				for k := 0; k < 9; k++ {
+				for k := 0; k < 12; k++ {
 					var bad []byte
 					why := ""
 					switch k {
+					case 9:
+						bad, why = []byte{0x08, 0x02, 0x22, 0x02, 0x01, 0x80, 0x42, 0x02, 0x08, 0x05}, "packed blocksizes ending inside a varint, followed by a well-formed mtime"
+					case 10:
+						bad, why = []byte{0x08, 0x01, 0x42, 0x04, 0x08, 0x05, 0x15, 0x01, 0x22, 0x02, 0x01, 0x02}, "mtime with truncated nanoseconds, followed by well-formed packed blocksizes"
+					case 11:
+						bad, why = []byte{0x08, 0x02, 0x42, 0x02, 0x08, 0x80, 0x42, 0x02, 0x08, 0x05}, "mtime whose seconds end inside a varint, followed by a well-formed mtime"
 					case 6, 7, 8:
 						// a field numbered 0, which protobuf does not have: well-formed around it, illegal all the same
 						m := msgFor(uint64(1+rr.Intn(5)), rr.Intn(128), rr.Intn(40))
